@@ -204,7 +204,21 @@ class Pairing:
         self.counter, self.coll, self.rule_id, self.describe = counter, coll, rule_id, describe
 
     def delta(self, state):
-        """-> {obj: [dcounter, dcoll, moved_tokens]}"""
+        """-> {obj: [dcounter, dcoll]}; objects named through a local whose alias was invalidated later keep their original identity"""
+        raw = self._delta(state)
+        frozen = {k[1]: v for k, v in state.env.items() if k[0] == "frozen"}
+        if not frozen:
+            return raw
+        out = {}
+        for obj, (dc, dl) in raw.items():
+            base = obj.split(".")[0].split("[")[0]
+            ident = frozen[base] + obj[len(base):] if base in frozen else obj
+            cur = out.setdefault(ident, [0, 0])
+            cur[0] += dc
+            cur[1] += dl
+        return out
+
+    def _delta(self, state):
         per = {}
         rem_tok, ins_tok = {}, {}
         for e in state.events:
